@@ -633,8 +633,15 @@ def parse_equation(equation: str) -> List[Symbol]:
     template = re.sub(r'\s+\)', ')', template)  # Remove space before closing brackets
     # fmt: on
 
-    equation = template.format(*[str(t) for t in terms])
-    code = template.format(*[t.code for t in terms])
+    try:
+        equation = template.format(*[str(t) for t in terms])
+        code = template.format(*[t.code for t in terms])
+    except (AttributeError, IndexError, KeyError, ValueError) as e:
+        # Stray braces (or backticks spanning the equals sign) leave a template
+        # that doesn't match the list of terms
+        raise ParserError(
+            f"Failed to parse equation (check braces and backticks): '{equation}'"
+        ) from e
 
     # `symbols` stores the final symbols and is successively updated in the
     # loop below
